@@ -38,7 +38,7 @@ inductive Mode where
   deriving DecidableEq, Repr
 
 namespace Datatypes
-open PVal (toFloat? seqItems? prevItems prevFields)
+open PVal (toFloat? seqItems? prevItems prevFields notOffered)
 variable {F : Type} [FloatOps F]
 
 /-- `except Exception as e: errcls = RangeError if isinstance(e, RangeError) else WrongTypeError`
@@ -224,6 +224,14 @@ def foldFields (f : String → PVal F → Option (Res F)) :
     | some (.error e) => .error e
     | some (.ok r) => foldFields f rest (PVal.dictSet acc k r)
 
+/-- `StructOf.validate`: first the members taken over from `previous` (those not offered, validated like
+offered ones), then the offered members -/
+def structFold (f : String → PVal F → Option (Res F)) (items kept : List (String × PVal F)) :
+    Except Err (List (String × PVal F)) :=
+  match foldFields f kept [] with
+  | .error e => .error e
+  | .ok acc => foldFields f items acc
+
 def mapErr {α : Type} (g : Err → Err) : Except Err α → Except Err α
   | .ok a => .ok a
   | .error e => .error (g e)
@@ -273,8 +281,8 @@ def conv (m : Mode) : DType F → PVal F → Option (PVal F) → Res F
     match v with
     | .dict items =>
       if structCheck (members.map (·.1)) optional (client || m == .validate) items then
-        (mapErr wrapErr (foldFields (convMember m members) items
-          (match m with | .call => [] | .validate => prevFields prev))).map .dict
+        (mapErr wrapErr (structFold (convMember m members) items
+          (match m with | .call => [] | .validate => notOffered items (prevFields prev)))).map .dict
       else .error .wrongType
     | _ => .error .wrongType
 /-- `tuple(sub.validate(v, p) for sub, v, p in zip(self.members, value, previous))` / the two-list `zip` -/
